@@ -24,6 +24,7 @@ type Scenario struct {
 	Reads       []int          `json:"read_sizes,omitempty"`
 	EOFWithData bool           `json:"eof_with_data,omitempty"`
 	NoRef       bool           `json:"visitor_without_stringref,omitempty"`
+	ReaderKind  int            `json:"reader_kind,omitempty"` // simkit.AsReader
 }
 
 type outcome struct {
@@ -57,7 +58,11 @@ func (r *runner) tap() *simkit.Tap {
 	return t
 }
 
-func (r *runner) exec(entry string, cuts, reads []int, eofWithData bool) *outcome {
+func (r *runner) exec(entry string, cuts, reads []int, eofWithData bool, readerKind ...int) *outcome {
+	rk := 0
+	if len(readerKind) > 0 {
+		rk = readerKind[0]
+	}
 	t := r.tap()
 	o := &outcome{}
 	simkit.SetCurrent(&Scenario{Format: string(r.cd.Name), Doc: hex.EncodeToString(r.doc), Entry: entry, Cuts: cuts, Reads: reads, EOFWithData: eofWithData, NoRef: r.noRef})
@@ -92,7 +97,7 @@ func (r *runner) exec(entry string, cuts, reads []int, eofWithData bool) *outcom
 				}
 			})
 		case "reader":
-			rd := &simkit.Reader{Data: r.doc, Sizes: reads, EOFWithData: eofWithData, Clock: &r.x.Clock}
+			rd := simkit.AsReader(rk, &simkit.Reader{Data: r.doc, Sizes: reads, EOFWithData: eofWithData, Clock: &r.x.Clock})
 			if r.noRef {
 				_, o.err = r.cd.ParseReader(rd, simkit.NoRef{Visitor: t})
 			} else {
@@ -295,8 +300,15 @@ func (Engine) Run(c *simkit.Choices, x *simkit.Ctx) *simkit.Violation {
 		}
 		st.Fault("short-read")
 		st.Eval(1)
-		st.Distinct(simkit.NewDigest().Int(int(docHash)).Str("reader").Ints(reads).Int(b2i(ewd)).Sum())
-		if v := compare(refParse, r.exec("reader", nil, reads, ewd), sc("reader", nil, reads, ewd)); v != nil {
+		rk := 0
+		if c.N(3) == 0 {
+			rk = 1 + c.N(simkit.NumReaderKinds-1) // the same input behind another concrete reader type
+			st.Fault("reader-type-variety")
+		}
+		st.Distinct(simkit.NewDigest().Int(int(docHash)).Str("reader").Ints(reads).Int(b2i(ewd)).Int(rk).Sum())
+		s := sc("reader", nil, reads, ewd)
+		s.ReaderKind = rk
+		if v := compare(refParse, r.exec("reader", nil, reads, ewd, rk), s); v != nil {
 			return v
 		}
 	}
